@@ -57,7 +57,7 @@ func TestVerif_C15_dec(t *testing.T) {
 		}
 		return string(b)
 	}
-	n := verifh.N(3000, 100000)
+	n := verifh.N(3000, 60000)
 	for i := 0; i < n; i++ {
 		nat := verifh.Pick(r, native)
 		size := r.Intn(65)
@@ -80,7 +80,7 @@ func TestVerif_C15_dec(t *testing.T) {
 			len(chunks) >= 2 && nonASCII, fmt.Sprintf("%s %x in %d chunks -> %x", nat.id, in, len(chunks), whole))
 	}
 	// the law on the decoders that are not modelled
-	m := verifh.N(600, 20000)
+	m := verifh.N(600, 10000)
 	for i := 0; i < m; i++ {
 		cs := verifh.Pick(r, c15Charsets[:8])
 		e := c15Lookup(cs.label)
@@ -112,7 +112,7 @@ func TestVerif_C15_find(t *testing.T) {
 			"after the declaration; BOMs (fe ff, ff fe, ef bb bf), partial BOMs, BOM + meta, BOM-like bytes later in the content; empty content. Answer = 'none' or the found decoder applied to the content "+
 			"(x/text as oracle string where Lean has no decoder). non-trivial = an encoding is found")
 	r := s.Rand()
-	n := verifh.N(2500, 60000)
+	n := verifh.N(2500, 40000)
 	for i := 0; i < n; i++ {
 		var content string
 		var pe encoding.Encoding
@@ -188,7 +188,7 @@ func TestVerif_C15_drain(t *testing.T) {
 		"autoDecodeReadCloser{detected: true, peek: 0..40 random bytes or nil, decodeReader: windows-1252 / UTF-16 transform.Reader over a scripted source, or nil} read with buffers smaller than, equal to and "+
 			"larger than the carried-over bytes (incl. 0); a nil decoder behind a short peek is the crash the model calls `panic`. non-trivial = peek non-empty and a decoder present")
 	r := s.Rand()
-	n := verifh.N(1500, 40000)
+	n := verifh.N(1500, 30000)
 	tr := T()
 	for i := 0; i < n; i++ {
 		var peek []byte
